@@ -131,6 +131,12 @@ def generate(repo, g):
              'typeshed._create_stub_map/_merge_create_stub_map decorators, get_last_modified of every class in '
              'jedi/file_io.py and of parso/file_io.py (installed)')
     g.lines.insert(1, 'import JediModel.Model.DiskCache')
+    g.lines.insert(2, 'import JediModel.Model.NsPath')
+    module = Src(repo, 'jedi/inference/value/module.py')
+    g.define('nsCfg', 'JediModel.NsPath.Cfg', '{ filterIsdir := %s }' % lean_bool(_ns_filter_isdir(module)),
+             'jedi/inference/value/module.py: ModuleValue.py__path__ - the candidate directories '
+             'os.path.join(s, name) of a pkgutil / pkg_resources namespace package are kept only if os.path.isdir')
+    g.fp(module, 'ModuleValue.py__path__')
 
     # ---- the dependency: parso's revalidation predicates (as installed; not part of /repo)
     spec = importlib.util.find_spec('parso')
@@ -163,6 +169,63 @@ def generate(repo, g):
         g.fp(fns, d)
     for d in ['FileIO', 'KnownContentFileIO', 'ZipFileIO', 'FileIOFolderMixin', 'FolderIO', 'AbstractFolderIO']:
         g.fp(fileio, d)
+
+
+def _ns_filter_isdir(module):
+    """ModuleValue.py__path__: exactly one iteration over `self.inference_state.get_sys_path()`; every directory
+    it contributes is `os.path.join(s, <name>)`.  True: it is contributed only under `if os.path.isdir(<that>)`
+    (for-loop with an `if`, or a comprehension with that condition); False: contributed unconditionally;
+    anything else: TieBroken."""
+    fn = module.find('ModuleValue.py__path__')
+    where = 'module.ModuleValue.py__path__'
+    markers = [n.value for n in ast.walk(fn) if isinstance(n, ast.Constant) and isinstance(n.value, str)]
+    if 'declare_namespace(__name__)' not in markers or 'extend_path(__path__' not in markers:
+        raise TieBroken(where + ': namespace boilerplate markers', repr(markers)[:200])
+    its = []
+    for n in ast.walk(fn):
+        if isinstance(n, ast.For) and 'get_sys_path()' in u(n.iter):
+            its.append(n)
+        if isinstance(n, (ast.ListComp, ast.SetComp, ast.GeneratorExp, ast.DictComp)):
+            if any('get_sys_path()' in u(c.iter) for c in n.generators):
+                its.append(n)
+    if len(its) != 1 or 'get_sys_path()' not in u(fn):
+        raise TieBroken(where + ': iterations over get_sys_path()', str(len(its)))
+    it = its[0]
+
+    def is_join(e, var):
+        return (isinstance(e, ast.Call) and u(e.func) == 'os.path.join' and len(e.args) == 2
+                and u(e.args[0]) == var)
+    if isinstance(it, ast.For):
+        if u(it.iter) != 'self.inference_state.get_sys_path()' or not isinstance(it.target, ast.Name) or it.orelse:
+            raise TieBroken(where + ': for over the sys path', u(it)[:200])
+        var = it.target.id
+        body = list(it.body)
+        if not (body and isinstance(body[0], ast.Assign) and len(body[0].targets) == 1
+                and isinstance(body[0].targets[0], ast.Name) and is_join(body[0].value, var)):
+            raise TieBroken(where + ': first statement of the loop is not `other = os.path.join(s, name)`',
+                            u(it)[:200])
+        other = body[0].targets[0].id
+        adds = ('paths.add(%s)' % other, 'paths.append(%s)' % other)
+        if len(body) == 2 and isinstance(body[1], ast.If) and not body[1].orelse \
+                and u(body[1].test) == 'os.path.isdir(%s)' % other \
+                and len(body[1].body) == 1 and u(body[1].body[0]) in adds:
+            return True
+        if len(body) == 2 and u(body[1]) in adds:
+            return False
+        raise TieBroken(where + ': loop body', u(it)[:300])
+    gens = it.generators
+    if len(gens) != 1 or u(gens[0].iter) != 'self.inference_state.get_sys_path()' \
+            or not isinstance(gens[0].target, ast.Name) or isinstance(it, ast.DictComp):
+        raise TieBroken(where + ': comprehension over the sys path', u(it)[:200])
+    var = gens[0].target.id
+    if not is_join(it.elt, var):
+        raise TieBroken(where + ': comprehension element is not os.path.join(s, name)', u(it.elt))
+    conds = [u(c) for c in gens[0].ifs]
+    if conds == []:
+        return False
+    if conds == ['os.path.isdir(%s)' % u(it.elt)]:
+        return True
+    raise TieBroken(where + ': comprehension condition', repr(conds))
 
 
 _MEMO_WORDS = ('cache', 'memo')
